@@ -7,6 +7,7 @@ package gws
 
 import (
 	"bytes"
+	"io"
 
 	"github.com/lxzan/gws/internal"
 )
@@ -134,3 +135,49 @@ func VerifNewSmap() SessionStorage { return newSmap() }
 
 // VerifSetPoolHook installs a callback observing every Get/Put of the library's pools.
 func VerifSetPoolHook(f func(kind string, obj any)) { internal.VerifSetPoolHook(f) }
+
+// verifChunkReader returns the scripted chunk sizes one Read at a time; the last chunk comes with
+// io.EOF when eofWithLast, a failure replaces the end of the stream when failAtEnd.
+type verifChunkReader struct {
+	chunks      []int
+	i           int
+	eofWithLast bool
+	failAtEnd   bool
+}
+
+func (r *verifChunkReader) Read(p []byte) (int, error) {
+	if r.i >= len(r.chunks) {
+		if r.failAtEnd {
+			return 0, io.ErrUnexpectedEOF
+		}
+		return 0, io.EOF
+	}
+	n := r.chunks[r.i]
+	if n > len(p) {
+		n = len(p)
+		r.chunks[r.i] -= n
+	} else {
+		r.i++
+	}
+	if r.i == len(r.chunks) && r.eofWithLast && !r.failAtEnd {
+		return n, io.EOF
+	}
+	return n, nil
+}
+
+// VerifLimitedCopy runs the copy loop of deflater.Decompress (io.CopyBuffer through limitReader with a
+// 32 KiB buffer) on a scripted source and reports how many bytes reached the destination and the error class.
+func VerifLimitedCopy(limit int, chunks []int, eofWithLast bool, failAtEnd bool) (written int, errClass string) {
+	src := &verifChunkReader{chunks: append([]int(nil), chunks...), eofWithLast: eofWithLast, failAtEnd: failAtEnd}
+	var dst bytes.Buffer
+	_, err := io.CopyBuffer(&dst, limitReader(src, limit), make([]byte, 32*1024))
+	switch {
+	case err == nil:
+		errClass = "ok"
+	case err == internal.CloseMessageTooLarge:
+		errClass = "toolarge"
+	default:
+		errClass = "fail"
+	}
+	return dst.Len(), errClass
+}
